@@ -219,6 +219,7 @@ pub fn run_grevm(
         let mut last_spins = 0u64;
         let mut stable = 0u32;
         let mut cancelled = false;
+        let mut release_attempts = 0u32;
         while !done.load(Ordering::SeqCst) {
             if start.elapsed() < soft {
                 std::thread::sleep(Duration::from_micros(200));
@@ -273,8 +274,26 @@ pub fn run_grevm(
                 scheduler.verif_cancel();
                 cancelled = true;
             }
+            if cancelled && release_attempts < 20 {
+                // keep releasing: directly, not through cancel() (which may be what is broken)
+                scheduler.verif_force_release();
+                release_attempts += 1;
+            }
             if start.elapsed() > hard * 2 {
-                // cannot recover the process state; give up loudly (inconclusive, never a verdict)
+                // The run cannot be wound down. If a stable stall was diagnosed, that diagnosis is
+                // the verdict and must not be lost with the shard: hand it to the orchestrator.
+                if let Some(st) = &stall {
+                    crate::orchestrate::emergency_finding(
+                        st.owner,
+                        "STALL",
+                        &format!(
+                            "execution does not make progress without the stall timer and could not even be cancelled: {}; {}",
+                            st.class, st.detail
+                        ),
+                        &serde_json::json!({"case": case.summary(), "config": rc.describe(), "faults": plan.describe()}),
+                    );
+                    std::process::exit(4);
+                }
                 eprintln!("INCONCLUSIVE run did not finish after cancel; aborting shard");
                 std::process::exit(3);
             }
